@@ -1,5 +1,5 @@
 (* C20/Witness.v — non-vacuity examples and concrete evaluations (vm_compute). *)
-From Verif Require Import Common.Base C20.Model C20.Proofs1 C20.Proofs2 C20.Proofs3 C20.Proofs4 C20.Repaired.
+From Verif Require Import Common.Base C20.Model C20.Proofs1 C20.Proofs2 C20.Proofs3 C20.Proofs4 C20.Old C20.ObsCheck C20.Harness.
 
 Definition o1 : oracle :=
   mkOracle (fun g => match g with
@@ -77,7 +77,7 @@ Proof. vm_compute. auto. Qed.
 
 Example ex_final_unblocked :
   let s := fst (run o1 init [LRun BrWatch; LRun BrWatch; LCancel; LRun BrCtx]) in
-  st_pc s = PFinal true /\ svc_blocked (live_gen s) s = false.
+  st_pc s = PFinal true /\ st_live s = Some 0.
 Proof. vm_compute. auto. Qed.
 
 (* documented limitation: a Shutdown() that arrives while a reload has the state at Closing is
@@ -100,25 +100,29 @@ Example ex_split_shutdown :
   st_phase (fst r) = Closed /\ count is_close_chan (snd r) = 1.
 Proof. vm_compute. auto. Qed.
 
-(* the refutation witness of ends_closed, step by step *)
-Example ex_deadlock_log :
-  snd (run refute_oracle init refute_history) =
-  [ASetState Starting; AGet 0 true; ACreate 0 1; ACreate 0 2; ACreate 0 3; ACreate 0 0;
-   AStart 0 0 true; AStart 0 1 true; AStart 0 2 true; AStart 0 3 true; ASetState Running;
-   ASetState Closing; AClose 0; AProvShutdown true; ANotReady 0].
-Proof. vm_compute. reflexivity. Qed.
+(* a fatal error reported while a reload is retiring the service is received and discarded by
+   shutdownService: the reload completes, the collector keeps running the new configuration *)
+Example ex_fatal_during_reload :
+  let r := run refute_oracle init [LRun BrWatch; LRun BrWatch; LInjSig SigHup; LRun BrSignal; LInjAsync (SndFatal 0);
+                                   LRun BrWatch; LRun BrWatch] in
+  st_pc (fst r) = PSelect /\ st_async (fst r) = [] /\ st_live (fst r) = Some 1.
+Proof. vm_compute. auto. Qed.
 
-(* one blocked fatal sender alone is harmless when Run is idle in the select: it is received *)
+(* one fatal error while Run is idle in the select stops the collector *)
 Example ex_single_fatal_ok :
   let r := run refute_oracle init [LRun BrWatch; LRun BrWatch; LInjAsync (SndFatal 0); LRun BrAsync; LRun BrAsync] in
   st_pc (fst r) = PDone DStopped.
 Proof. vm_compute. reflexivity. Qed.
 
-(* ... but not while a reload is retiring the service *)
-Example ex_fatal_during_reload :
-  let r := run refute_oracle init [LRun BrWatch; LRun BrWatch; LInjSig SigHup; LRun BrSignal; LInjAsync (SndFatal 0); LRun BrWatch] in
-  st_pc (fst r) = PStuck /\ st_phase (fst r) = Closing.
+(* ---- REGRESSION: the two fixed findings on the OLD step function (Old.v) ----------------------------- *)
+Example ex_deadlock_old :   (* C20-FATAL-DEADLOCK: stuck in Closing, Run never returned *)
+  let r := run_old refute_oracle init refute_history in
+  st_pc (fst r) = PStuck /\ st_phase (fst r) = Closing /\ count is_return (snd r) = 0.
 Proof. vm_compute. auto. Qed.
+
+Example ex_panic_old :      (* C20-WATCH-SEND-ON-CLOSED: the blocked provider goroutine panicked *)
+  count is_sender_panic (snd (run_old refute_oracle init panic_history)) = 1.
+Proof. vm_compute. reflexivity. Qed.
 
 (* a change and, right behind it, a watch error while Run is busy starting up: the reload for the
    change happens, then the error is still pending and stops the collector *)
@@ -136,16 +140,7 @@ Example ex_provider_level :
    PShutdown 0 true; PShutdown 1 true; PShutdown 2 true].
 Proof. vm_compute. reflexivity. Qed.
 
-(* the panic witness, action by action *)
-Example ex_sender_panic_log :
-  snd (run refute_oracle init panic_history) =
-  [ASetState Starting; ACloseChan; AGet 0 true; ACreate 0 1; ACreate 0 2; ACreate 0 3; ACreate 0 0;
-   AStart 0 0 true; AStart 0 1 true; AStart 0 2 true; AStart 0 3 true; ASetState Running;
-   ASetState Closing; ASenderPanic; AClose 0; AProvShutdown true; ANotReady 0;
-   AShutdown 0 3 true; AShutdown 0 2 true; AShutdown 0 1 true; AShutdown 0 0 true; ASetState Closed; AReturn RNil].
-Proof. vm_compute. reflexivity. Qed.
-
-(* hypotheses of orderly_shutdown_partial / stop_request_ends_run are satisfiable on a non-trivial run *)
+(* at most one notification pending at every prefix of h_ok (the old model needed that hypothesis) *)
 Example ex_partial_hyp :   (* every prefix of h_ok is some firstn k h_ok *)
   forallb (fun k => Nat.leb (length (st_watch (fst (run o1 init (firstn k h_ok))))) 1) (seq 0 (S (length h_ok))) = true.
 Proof. vm_compute. reflexivity. Qed.
@@ -164,15 +159,12 @@ Example ex_failed_shutdown_present :
   existsb is_failed_shut (snd r) = true /\ last_opt (snd r) = Some (AReturn RErrRetire).
 Proof. vm_compute. auto. Qed.
 
-(* the repairs on the two refutation witnesses *)
-Example ex_fatal_during_reload_repaired :   (* faithful model: PStuck (ex_fatal_during_reload) *)
-  let r := run_repaired refute_oracle init [LRun BrWatch; LRun BrWatch; LInjSig SigHup; LRun BrSignal; LInjAsync (SndFatal 0);
-                                            LRun BrWatch; LRun BrWatch] in
-  st_pc (fst r) = PSelect /\ st_async (fst r) = [] /\ st_live (fst r) = Some 1.
-Proof. vm_compute. auto. Qed.
-
-Example ex_panic_history_repaired :
-  let r := run_watchfix refute_oracle init panic_history in
-  st_pc (fst r) = PDone DStopped /\ count is_sender_panic (snd r) = 0 /\
-  count is_sender_panic (snd (run refute_oracle init panic_history)) = 1.
-Proof. vm_compute. auto. Qed.
+(* the link is not vacuous: the observed form of a model run is a real log (40 entries for h_ok over a
+   topology with 2 URIs and an expansion-only provider), it passes the checker, and the checker
+   rejects it as soon as one shutdown entry is removed *)
+Example ex_link :
+  let lg := wire_log (mkTopo 2 1) Starting (snd (run o1 init h_ok)) in
+  length lg = 40 /\ obs_verdict 2 lg (ret_of (snd (run o1 init h_ok))) = 0 /\
+  obs_verdict 2 (filter (fun e => negb (Nat.eqb (fst e) 82 && Nat.eqb (fst (snd e)) 0 && Nat.eqb (snd (snd e)) 3)) lg)
+              (ret_of (snd (run o1 init h_ok))) <> 0.
+Proof. vm_compute. repeat split; discriminate. Qed.
